@@ -179,9 +179,6 @@ def rightDistributes (items : List α) (f g : α → α → α) : Res :=
     | [a, b, c] => failIf (g (f b c) a ≠ f (g b a) (g c a)) "Right distributive property check failed."
     | _ => unreachable
 
-def distributive (items : List α) (f g : α → α → α) : Res :=
-  andThen (leftDistributes items f g) (rightDistributes items f g)
-
 def noNonzeroZeroDivisors (items : List α) (f : α → α → α) (zero : α) : Res :=
   forEach items fun a =>
     forEach items fun b =>
@@ -215,43 +212,8 @@ def bilinearity (itemsF : List α) (itemsH : List γ) (f : α → α → α) (h 
         | _ => unreachable
     | _ => unreachable
 
-/-! ## the composite checkers -/
-
-def semigroup (items : List α) (f : α → α → α) : Res :=
-  andThen (associativity items f) (.ok ())
-
-def monoid (items : List α) (f : α → α → α) (zero : α) : Res :=
-  andThen (semigroup items f) (andThen (identity items f zero) (.ok ()))
-
-def commutativeMonoid (items : List α) (f : α → α → α) (zero : α) : Res :=
-  andThen (monoid items f zero) (andThen (commutativity items f) (.ok ()))
-
-def semiring (items : List α) (f g : α → α → α) (zero one : α) : Res :=
-  andThen (commutativeMonoid items f zero)
-    (andThen (monoid items g one)
-      (andThen (absorbingElement items g zero)
-        (andThen (distributive items f g) (.ok ()))))
-
-def ring (items : List α) (f g : α → α → α) (zero one : α) (b : α → α) : Res :=
-  andThen (semiring items f g zero one) (andThen (inverse items f zero b) (.ok ()))
-
-def commutativeRing (items : List α) (f g : α → α → α) (zero one : α) (inverseF : α → α) : Res :=
-  andThen (semiring items f g zero one)
-    (andThen (inverse items f zero inverseF) (andThen (commutativity items g) (.ok ())))
-
-def integralDomain (items : List α) (f g : α → α → α) (zero one : α) (inverseF : α → α) : Res :=
-  andThen (commutativeRing items f g zero one inverseF)
-    (andThen (noNonzeroZeroDivisors items g zero) (.ok ()))
-
-def field (items : List α) (f g : α → α → α) (zero one : α) (inverseF inverseG : α → α) : Res :=
-  andThen (commutativeRing items f g zero one inverseF)
-    (andThen (nonzeroInverse items g one zero inverseG) (.ok ()))
-
-def group (items : List α) (f : α → α → α) (zero : α) (b : α → α) : Res :=
-  andThen (monoid items f zero) (andThen (inverse items f zero b) (.ok ()))
-
-def abelianGroup (items : List α) (f : α → α → α) (zero : α) (b : α → α) : Res :=
-  andThen (group items f zero b) (andThen (commutativity items f) (.ok ()))
+/-! The composite checkers (`semigroup`, `monoid`, …, `field`, `distributive`) are generated from the
+Rust source into `HvAlg/Gen/Composites.lean` on every run. -/
 
 /-- `if c { properties_satisfied.push(name) }` -/
 def pushIf (ps : List String) (c : Bool) (name : String) : List String :=
